@@ -7,7 +7,8 @@ use program_structure::report_code::ReportCode;
 use program_structure::report::{Report, ReportCollection};
 use program_structure::ir::*;
 use program_structure::ir::AccessType;
-use program_structure::ir::value_meta::ValueMeta;
+use num_bigint::BigInt;
+use program_structure::ir::value_meta::{ValueMeta, ValueReduction};
 use program_structure::ir::variable_meta::VariableMeta;
 
 pub struct SignalAssignmentWarning {
@@ -163,12 +164,24 @@ fn may_alias(first: &[AccessType], second: &[AccessType]) -> bool {
     use AccessType::*;
     first.iter().zip(second.iter()).all(|accesses| match accesses {
         (ComponentAccess(first), ComponentAccess(second)) => first == second,
-        (ArrayAccess(first), ArrayAccess(second)) => match (first.value(), second.value()) {
+        (ArrayAccess(first), ArrayAccess(second)) => match (index_value(first), index_value(second)) {
             (Some(first), Some(second)) => first == second,
             _ => true,
         },
         _ => false,
     })
+}
+
+/// Returns the value of an index expression, if it is known. The value of a
+/// literal is known also if value propagation was cut short before it reached
+/// the expression (otherwise `r[0]` and `r[1]` would be identified then).
+fn index_value(index: &Expression) -> Option<BigInt> {
+    use ValueReduction::*;
+    match (index, index.value()) {
+        (Expression::Number(_, value), _) => Some(value.clone()),
+        (_, Some(FieldElement { value })) => Some(value.clone()),
+        _ => None,
+    }
 }
 
 /// This structure tracks signal assignments and constraints in a single
